@@ -33,6 +33,9 @@ type c19Case struct {
 	Thresh int        `json:"thresh,omitempty"`
 	Subj   string     `json:"subj,omitempty"`
 	Sched  *schedCase `json:"sched,omitempty"`
+	// Big: the database starts with one oversized table (larger than the 200-byte compaction size limit of this variant),
+	// so that every later compaction cycle works on a run that does not start at the oldest table
+	Big bool `json:"big,omitempty"`
 }
 
 func words(alpha string, maxLen int) []string {
@@ -72,6 +75,20 @@ func (c c19) Run(ctx *core.Ctx) error {
 			cases = append(cases, core.J(c19Case{Kind: "db", Word: w, Repeat: 1, Thresh: 1}))
 		}
 	}
+	// D = delete the key of the last P + flush (tables that hold nothing but tombstones, compactions that leave an empty table)
+	for _, w := range words("PDCR", maxW) {
+		if strings.Contains(w, "D") {
+			cases = append(cases, core.J(c19Case{Kind: "db", Word: w, Repeat: 3, Thresh: 1}))
+		}
+	}
+	// an oversized oldest table: compaction runs that do not start at the oldest table
+	for _, th := range []int{1, 2} {
+		for _, w := range words("PCR", maxW) {
+			if w != "" {
+				cases = append(cases, core.J(c19Case{Kind: "db", Word: w, Repeat: 3, Thresh: th, Big: true}))
+			}
+		}
+	}
 	for _, subj := range []string{"sstable-slice", "sstable-skiplist", "sstable-disk", "super", "rio-seq", "rio-mmap", "rio-writer", "wal-replay", "wal-append"} {
 		for _, w := range words("SARTG", 4) {
 			cases = append(cases, core.J(c19Case{Kind: "reader", Word: w, Subj: subj}))
@@ -90,7 +107,7 @@ func (c c19) Run(ctx *core.Ctx) error {
 			}
 		}
 	}
-	ctx.Ev.Rule = "database: every word of cycles over {P = put + forced rotation + flush, C = one compaction cycle, R = Close + Open} up to length 4 repeated 5 times (20 cycles) and every word up to length 7 once, x file threshold {1,2} x compaction goroutine {disabled, enabled with a 1 h ticker}; after every cycle the /proc/self/fd and /proc/self/maps entries under the database directory must be <= 2*live tables + 4, after every Close 0 entries and 0 goroutines inside simpledb, and at the end the directory must be removable. readers: every word up to length 4 over {S = full scan drained, A = scan abandoned after one step, R = range scan drained, T = starting-at scan abandoned, G = point read} on each of 9 subjects (table reader with 3 loaders, stacked reader, RecordIO sequential/mmap reader and writer, WAL replayer and appender), and up to length 2 on every legacy fixture table x 3 loaders, then Close: 0 entries. Close against the background goroutines: see bounds. distinct = word x subject/config; non-trivial = word length >= 2"
+	ctx.Ev.Rule = "database: every word of cycles over {P = put + forced rotation + flush, C = one compaction cycle, R = Close + Open} (plus words with D = delete of the last put key + flush, and all words again behind an oversized oldest table that every compaction run has to leave out) up to length 4 repeated 5 times (20 cycles) and every word up to length 7 once, x file threshold {1,2} x compaction goroutine {disabled, enabled with a 1 h ticker}; after every cycle the /proc/self/fd and /proc/self/maps entries under the database directory must be <= 2*live tables + 4, after every Close 0 entries and 0 goroutines inside simpledb, and at the end the directory must be removable. readers: every word up to length 4 over {S = full scan drained, A = scan abandoned after one step, R = range scan drained, T = starting-at scan abandoned, G = point read} on each of 9 subjects (table reader with 3 loaders, stacked reader, RecordIO sequential/mmap reader and writer, WAL replayer and appender), and up to length 2 on every legacy fixture table x 3 loaders, then Close: 0 entries. Close against the background goroutines: see bounds. distinct = word x subject/config; non-trivial = word length >= 2"
 	ctx.Ev.Bounds["db_word_len_repeated"] = maxW
 	ctx.Ev.Bounds["db_word_len_flat"] = flat
 	rs := ctx.Pmap(cases)
@@ -210,6 +227,9 @@ func (c c19) dbCase(w *core.WCtx, cs c19Case) core.Result {
 	}()
 	open := func() *simpledb.DB {
 		opts := []simpledb.ExtraOption{simpledb.MemstoreSizeBytes(giB), simpledb.CompactionFileThreshold(cs.Thresh), simpledb.WriteBufferSizeBytes(4096), simpledb.ReadBufferSizeBytes(4096)}
+		if cs.Big {
+			opts = append(opts, simpledb.CompactionMaxSizeBytes(200))
+		}
 		if cs.Ticker {
 			opts = append(opts, simpledb.CompactionRunInterval(time.Hour))
 		} else {
@@ -242,12 +262,33 @@ func (c c19) dbCase(w *core.WCtx, cs c19Case) core.Result {
 	}
 	step := 0
 	maxSeen := 0
+	lastKey := "k0"
+	if cs.Big {
+		if err := db.Put("big", string(incompressible(300, 77))); err != nil {
+			viol("Put: %v", err)
+			return r
+		}
+		if err := db.VerifRotateAndWait(); err != nil {
+			viol("rotate: %v", err)
+			return r
+		}
+	}
 	for rep := 0; rep < cs.Repeat; rep++ {
 		for _, ch := range cs.Word {
 			step++
 			r.Trans++
 			switch ch {
+			case 'D':
+				if err := db.Delete(lastKey); err != nil {
+					viol("Delete: %v", err)
+					return r
+				}
+				if err := db.VerifRotateAndWait(); err != nil {
+					viol("rotate: %v", err)
+					return r
+				}
 			case 'P':
+				lastKey = fmt.Sprintf("k%d", step%3)
 				if err := db.Put(fmt.Sprintf("k%d", step%3), fmt.Sprintf("value-%d", step)); err != nil {
 					viol("Put: %v", err)
 					return r
